@@ -122,10 +122,22 @@ class Selector:
             return out
         if isinstance(n, ast.Call):
             return self.call(n, st)
+        if isinstance(n, ast.GeneratorExp) and len(n.generators) == 1:
+            # a generator expression over the registry computes nothing until it is consumed: next() pulls one row at a time
+            o0 = self.ev(n.generators[0].iter, st)
+            if len(o0) == 1 and o0[0][1] is not None and o0[0][1][0] == "registry":
+                return [(st, ("lazygen", n))]
         if isinstance(n, (ast.ListComp, ast.GeneratorExp)) and len(n.generators) == 1:
             r = self.comprehension(n, st)
             if r is not None:
                 return r
+        if (isinstance(n, ast.Compare) and len(n.ops) == 1 and isinstance(n.ops[0], (ast.Is, ast.IsNot, ast.In, ast.NotIn))) or (
+                isinstance(n, ast.UnaryOp) and isinstance(n.op, ast.Not)):
+            # a test kept in a variable (preloaded = ... is not None): its truth value, decided as a branch would decide it
+            try:
+                return [(s, ("const", bool(tr))) for s, tr in self.branch(n, st)]
+            except Unsupported:
+                pass
         if isinstance(n, (ast.BinOp, ast.JoinedStr, ast.Compare, ast.BoolOp, ast.UnaryOp, ast.IfExp)):
             # string building for messages etc.: evaluate calls inside for their effects, value unknown
             outs = [st]
@@ -191,6 +203,12 @@ class Selector:
         g = gen.generators[0]
         outs = []
         for s, lst in self.ev(g.iter, st):
+            if lst is not None and lst[0] == "lazygen":
+                outs += self.lazy_next(n, s, gen, lst[1])
+                continue
+            if lst is not None and lst[0] == "registry" and len(lst) == 1:
+                outs += self.lazy_next(n, s, gen, None)
+                continue
             if lst is None or lst[0] != "rowlist":
                 return None
             pending = [s]
@@ -214,6 +232,73 @@ class Selector:
                     s1 = s1.copy()
                     s1.raised = ("StopIteration", n)
                     outs.append((s1, None))
+        return outs
+
+    def lazy_next(self, n, st, outer, inner):
+        """next((OUTER_ELT for T in SRC if C), DEFAULT) where SRC is the registry itself (inner None) or a generator expression
+        over the registry (inner): rows are pulled one at a time - two symbolic rounds with ageing, as for a loop with break -
+        and nothing is evaluated for the rows after the first element that passes."""
+        st = st.copy()
+        st.loops += 1
+        L = st.loops
+        og = outer.generators[0]
+
+        def pull(x):
+            """[(state, element or None, skipped)]"""
+            if inner is None:
+                return [(x, ("row", L, "cur"), False)]
+            ig = inner.generators[0]
+            x = self.assign(ig.target, ("row", L, "cur"), x, inner)
+            cur = [(x, True)]
+            for t in ig.ifs:
+                cur = [(s3, tr and tr2) for s2, tr in cur for s3, tr2 in (self.branch(t, s2) if tr else [(s2, False)])]
+            res = []
+            for s2, tr in cur:
+                if not tr:
+                    res.append((s2, None, True))
+                    continue
+                for s3, v in self.ev(inner.elt, s2):
+                    res.append((s3, v, False))
+            return res
+
+        def iteration(x):
+            """([(state, value)] finished, [state] to go on with)"""
+            done, falls = [], []
+            for s2, v, skipped in pull(x):
+                if skipped:
+                    falls.append(s2)
+                    continue
+                if v is None:
+                    done.append((s2, None))
+                    continue
+                s2 = self.assign(og.target, v, s2, outer)
+                cur = [(s2, True)]
+                for t in og.ifs:
+                    cur = [(s4, tr and tr2) for s3, tr in cur for s4, tr2 in (self.branch(t, s3) if tr else [(s3, False)])]
+                for s3, tr in cur:
+                    if tr:
+                        done += self.ev(outer.elt, s3)
+                    else:
+                        falls.append(s3)
+            return done, falls
+        outs = []
+        exhausted = [st]
+        d1, f1 = iteration(st)
+        outs += d1
+        for f in f1:
+            exhausted.append(f)
+            a1, _av = self._age(f, L)
+            d2, f2 = iteration(a1)
+            outs += d2
+            exhausted += f2
+        for e in exhausted:
+            e2 = e.copy()
+            e2.events.append(("exhausted", L, n))
+            if len(n.args) > 1:
+                outs += self.ev(n.args[1], e2)
+            else:
+                e2.raised = ("StopIteration", n)
+                outs.append((e2, None))
         return outs
 
     def subscript(self, base, idx, node):
@@ -245,6 +330,10 @@ class Selector:
                     out.append((s, None))
                     continue
                 ok, bad = s.copy(), s.copy()
+                if a[0] == "rowmod" and s.decided(("in_sysmodules", a[1], a[2])) is True:
+                    # import_module of a module that is loaded already hands back the sys.modules entry: nothing is imported
+                    out.append((s, ("preloaded", a[1], a[2])))
+                    continue
                 if a[0] == "rowmod":
                     key = ("import_ok", a[1], a[2])
                     val = ("imported", a[1], a[2])
@@ -374,6 +463,8 @@ class Selector:
                 out.append((s, False))
             elif is_modulish(v):
                 out.append((s, True))
+            elif v[0] == "const" and isinstance(v[1], (bool, int)):
+                out.append((s, bool(v[1])))
             else:
                 out += self.fork(("?", norm(t)), s, t)
         return out
@@ -399,6 +490,9 @@ class Selector:
                 return [(st, pos)]
             if is_modulish(other) or other[0] in ("const", "rowname", "rowmod", "tuple", "rowlist"):
                 return [(st, not pos)]
+            if other[0] == "envval" and other[1] != "?":
+                # os.environ.get(K) is None exactly when K is not set
+                return [(s, (not tr) if pos else tr) for s, tr in self.fork(("env_set", other[1]), st, node)]
             return [(s, tr if pos else not tr) for s, tr in self.fork(("isnone", other), st, node)]
         if isinstance(op, (ast.In, ast.NotIn)):
             pos = isinstance(op, ast.In)
@@ -411,6 +505,8 @@ class Selector:
         if isinstance(op, (ast.Eq, ast.NotEq)):
             pos = isinstance(op, ast.Eq)
             x, y = (a, b) if a[0] == "envval" else (b, a)
+            if x[0] == "envval" and x[1] != "?" and st.decided(("env_set", x[1])) is False and y[0] in ("rowname", "const"):
+                return [(st, not pos)]          # the variable is not set: its value (None) equals no name
             if x[0] == "envval" and y[0] == "rowname":
                 # names are unique (R-C19-1): at most one row matches
                 for (at, tr) in st.conds:
